@@ -235,6 +235,8 @@ impl FlowSource for MemTableSource {
                 }
 
                 let guard = passive.lock().await;
+                #[cfg(sneldb_verif)]
+                crate::verif_hooks::vp("rd_passive_locked");
                 self.collect_rows_from_memtable(
                     &*guard,
                     limit,
@@ -344,6 +346,8 @@ impl FlowSource for MemTableSource {
 
         for passive in self.config.passive_memtables.iter() {
             let guard = passive.lock().await;
+            #[cfg(sneldb_verif)]
+            crate::verif_hooks::vp("rd_passive_locked");
             emitted = self
                 .push_rows_from_memtable(
                     &*guard,
